@@ -2144,6 +2144,10 @@ func (a *Authenticator) handleClientAuthentication(ctx context.Context, negotiat
 			return fmt.Errorf("server declined authentication but the client's policy requires it")
 		}
 		slog.Debug("🔐 CLIENT: No authentication required", "destination", "cedar")
+		// Report what happened on the wire, not what this side's own level alone
+		// suggested (negotiateSecurity on the client sees only the server's YES/NO):
+		// no exchange ran, so the session is not authenticated.
+		negotiation.Authentication = false
 		return nil
 	}
 
@@ -2266,6 +2270,10 @@ func (a *Authenticator) handleClientAuthentication(ctx context.Context, negotiat
 
 		slog.Debug(fmt.Sprintf("✅ CLIENT: Authentication successful with method: %s", selectedMethod), "destination", "cedar")
 		negotiation.NegotiatedAuth = selectedMethod
+		// An authentication ran to completion: report it, even when this client's
+		// own level (OPTIONAL/NEVER) would not have asked for one. The server
+		// reports the same, so both ends agree on the outcome.
+		negotiation.Authentication = true
 
 		// After successful authentication, perform key exchange as in HTCondor's Authentication::exchangeKey
 		// For modern HTCondor with AESGCM crypto, the server always sends an empty key
